@@ -152,13 +152,13 @@ func init() {
 	gen.RegisterPool(ReLang, []string{"en", "de-DE", "zh-Hant"}, []string{"e", "1", ""})
 	gen.RegisterPool(ReID, []string{"a1", "x:y", "sec-2.1_b"}, []string{"", "é", " "})
 	gen.RegisterPool(ReOpen, []string{"", "open", "OPEN"}, []string{"yes", "opened"})
-	gen.RegisterPool(ReMapName, []string{"map1", "m_a-p"}, []string{"", "a b", "#m"})
+	gen.RegisterPool(ReMapName, []string{"map1", "m_a-p", "été", "карта"}, []string{"", "a b", "#m"})
 	gen.RegisterPool(ReCoords, []string{"1,2", "0,0,10,10", "5,5,3"}, []string{"1", "1,", "a,b", "1, 2"})
 	gen.RegisterPool(ReShape, []string{"rect", "CIRCLE", "poly", "default"}, []string{"square", ""})
-	gen.RegisterPool(ReUsemap, []string{"#map1", "#M_a-p"}, []string{"map1", "#", "#a b"})
+	gen.RegisterPool(ReUsemap, []string{"#map1", "#M_a-p", "#été", "#карта1"}, []string{"map1", "#", "#a b"})
 	gen.RegisterPool(ReScope, []string{"row", "col", "rowgroup", "COLGROUP"}, []string{"", "x", "ro"})
 	gen.RegisterPool(ReNowrap, []string{"", "nowrap"}, nil)
-	gen.RegisterPool(reEmailColor, []string{"#fff", "#A1B2C3", "red", "RebeccaPurple"}, []string{"#ggg", "", "rgb(1,2,3)", "reddish"})
+	gen.RegisterPool(reEmailColor, []string{"#fff", "#A1B2C3", "red", "RebeccaPurple", "#f", "#ab", "#abcd", "#abcde"}, []string{"#ggg", "", "rgb(1,2,3)", "reddish"})
 	gen.RegisterPool(reEmailButtonType, []string{"submit", "button", "re-set"}, []string{"a", "1submit", ""})
 	gen.RegisterPool(reEmailStyleType, []string{"text/css", "TEXT/CSS"}, []string{"text/javascript", ""})
 }
